@@ -695,6 +695,7 @@ package gojq
 //@ trusted (a allocator) makeObject(l int) (m map[string]any)
 //@   modifies GH_owned
 //@   ensures m != nil && fresh(m) && len(m) == 0 && (a != nil ==> owned(m))
+//@   ensures forall j string :: {j in m} !(j in m)
 //@   ensures forall r int :: {ownedref(r)} r <= oldalloc() ==> ownedref(r) == old(ownedref(r))
 
 //@ trusted (a allocator) makeArray(l, c int) (s []any)
@@ -1440,3 +1441,34 @@ package gojq
 //@   flag nosafety
 //@   modifies *
 //@   call update requires (arg0 is []any) && owned(v) && start == 0 && end < len(v) ==> cap(arg0.([]any)) == len(arg0.([]any))
+
+// C02: one step of setpath. With the rest of the path empty, update returns the new value; updateObject
+// returns an object that holds it under the key and everything else the input held under the other
+// keys (a write through one key never changes what is stored under another).
+//@ func update(v any, path []any, n any, a allocator) (r any, err error)
+//@   property C02
+//@   flag nosafety
+//@   modifies *
+//@   ensures len(path) == 0 ==> err == nil && r == n && unchanged()
+
+//@ func updateObject(v map[string]any, k string, path []any, n any, a allocator) (r any, err error)
+//@   property C02
+//@   flag nosafety
+//@   modifies *
+//@   ensures len(path) == 0 && !(n is struct{}) ==> err == nil && (r is map[string]any) && (k in r.(map[string]any)) && r.(map[string]any)[k] == n
+//@   ensures len(path) == 0 && !(n is struct{}) ==> forall j string :: {r.(map[string]any)[j]} j != k ==> ((j in r.(map[string]any)) == old(j in v)) && r.(map[string]any)[j] == old(v[j])
+
+// One step of setpath on arrays: the element at the (normalised) index is the new value, every other
+// element of the input is kept, and the slots a write beyond the end creates are null.
+//@ func updateArrayIndex(v []any, i int, path []any, n any, a allocator) (r any, err error)
+//@   property F
+// ASSUMED invariant of arrays the update owns: their spare capacity holds nulls (make zeroes it, deleteEmpty
+// clears what it cuts off), so an in-place extension exposes nulls
+//@   requires owned(v) ==> forall k :: {v[k]} len(v) <= k && k < cap(v) ==> v[k] == nil
+//@   property C02
+//@   flag nosafety
+//@   modifies *
+//@   ensures len(path) == 0 && !(n is struct{}) && err == nil ==> (r is []any) && len(r.([]any)) == max(len(v), ((i < 0) ? i + len(v) : i) + 1) && r.([]any)[(i < 0) ? i + len(v) : i] == n
+//@   ensures len(path) == 0 && !(n is struct{}) && err == nil ==> forall k :: {r.([]any)[k]} 0 <= k && k < len(v) && k != ((i < 0) ? i + len(v) : i) ==> r.([]any)[k] == old(v[k])
+//@   ensures len(path) == 0 && !(n is struct{}) && err == nil ==> forall k :: {r.([]any)[k]} len(v) <= k && k < ((i < 0) ? i + len(v) : i) ==> r.([]any)[k] == nil
+//@   ensures len(path) == 0 && !(n is struct{}) && ((i < 0) ? i + len(v) : i) < 0 ==> err != nil
